@@ -217,6 +217,31 @@ def _py_sm4(key, block, decrypt=False):
     return rk, b"".join(X[35 - i].to_bytes(4, "big") for i in range(4))
 
 
+def ob_round_functions():
+    """the building blocks on their own, for every 32-bit input: tau, T = L.tau (round function) and T' = L'.tau (key expansion).
+    The whole-cipher equivalences are 32 of these chained; a fault that needs one particular word (say the all-zero word) is a local
+    counterexample here even where the chained query is too hard to refute."""
+    def body(stats):
+        c = load_crate(CRATE)
+        for fname, spec in (("tau", specs.sm4_tau), ("t", specs.sm4_T), ("t_prime", specs.sm4_Tp)):
+            fn = c.find(fname)
+            if fn is None:
+                raise Inconclusive("structure not recognised (no verdict): no function `%s` in gm-sm4" % fname)
+            dom = mk_dom()
+            def run(ctx):
+                ex = Ex(c, dom, ctx)
+                x = dom.sym("x", "u32")
+                return x, ex.run_fn(fn, [x])
+            paths = explore(run, prune=lambda a: smt.feasible(a, 5), max_paths=16)
+            named = {"x": z3.BitVec("x", 32)}
+            check_all_panics(stats, paths, named)
+            for ctx, (x, r) in live_paths(paths):
+                discharge(stats, ctx.facts + ctx.pc, dom.term(r) == spec(dom.term(x), S), "%s(x) == GB/T 32907 definition for every 32-bit x (this path)" % fname, named, 60)
+        return {}
+    return run_obligation("round_functions_all_words", ["gm_sm4::tau", "gm_sm4::t", "gm_sm4::t_prime", "gm_sm4::el", "gm_sm4::el_prime"], "all 32-bit words; S-box uninterpreted", body,
+                          stubs=["SBOX[] -> uninterpreted function on both sides"])
+
+
 def ob_ce_search(seed):
     """counterexample SEARCH on concrete keys (all-zero, all-one, counting, single-bit, seeded random): the MIR of new / encrypt / decrypt
     executed by engine M on concrete inputs against the standard. It exists for changes the symbolic obligations cannot encode (e.g. a loop
@@ -257,7 +282,7 @@ def ob_ce_search(seed):
 def run(tier, seed, t0):
     build_replay()
     jobs = [ob_key_schedule, lambda: ob_crypt(False), lambda: ob_crypt(True), lambda: ob_roundtrip("encrypt"),
-            lambda: ob_roundtrip("decrypt"), ob_tables, ob_vectors, lambda: ob_ce_search(seed)]
+            lambda: ob_roundtrip("decrypt"), ob_tables, ob_vectors, ob_round_functions, lambda: ob_ce_search(seed)]
     res = run_parallel(jobs)
     if tier == "thorough":
         import kani
